@@ -22,7 +22,8 @@ RULE = ("one layout per case with sizes over all five units x value grid {0,0.5,
         "crossing the 90/95 safe-area edges. "
         'Equal sizes of a layout may be one shared object; the writer may have written '
         'another layout before and another writer with other options may have written an '
-        'equal layout. ')
+        'equal layout. '
+        ' Video sizes may be floats (853.33 x 480.5); lengths are also constructed within 2e-7 of a two-decimal rounding tie; the DFXP leg mixes a percent region with an absolute padding under relativize=False, the WebVTT leg absolute units (also all-zero) under relativize=False; writers are constructed with 0-4 leading positional arguments.')
 ASSUMPTIONS = [
     "printed value within 0.005 (+1e-9) of the exact percentage; region edges within 0.011",
     "relativize=False is only judged for layouts that are already all-percent (the combination "
@@ -39,7 +40,7 @@ class NeedDim(Exception):
     pass
 
 
-def rel(size, axis, vw, vh):
+def rel(size, axis, vw, vh):  # noqa
     """Exact percentage (Fraction) of a [value, unit] size along axis 'h'|'v'."""
     v, u = Fraction(str(size[0])), size[1]
     if u == "%":
@@ -47,6 +48,7 @@ def rel(size, axis, vw, vh):
     dim = vw if axis == "h" else vh
     if not dim:
         raise NeedDim()
+    dim = Fraction(str(dim))        # (a video size may be given as a float)
     if u == "em":
         v, u = v * 16, "px"
     if u == "pt":
@@ -137,10 +139,15 @@ def case_strategy(writer):
                         for sz in (L.get(part) or []):
                             if sz is not None and sz[1] != "%":
                                 sz[0] = 0
-            dims = st.sampled_from([320, 640, 720, 1280, 1920, 3840])
+            dims = st.sampled_from([320, 640, 720, 1280, 1920, 3840, 1000, 853.33, 639.5])
             mode = draw(st.sampled_from(["both", "both", "both", "w", "h", "none"]))
             vw = draw(dims) if mode in ("both", "w") else None
-            vh = draw(st.sampled_from([240, 360, 480, 720, 1080, 2160])) if mode in ("both", "h") else None
+            vh = draw(st.sampled_from([240, 360, 480, 720, 1080, 2160, 1000, 480.5])) if mode in ("both", "h") else None
+            if relativize and vw and L.get("origin") and L["origin"][0][1] == "px" and draw(st.integers(0, 3)) == 0:
+                # a length whose percentage lies a hair below (or above) a two-decimal rounding tie
+                n = draw(st.integers(0, 9000))
+                eps = draw(st.sampled_from([-2e-6, -2e-7, 2e-7, 2e-6]))
+                L["origin"][0][0] = vw * (n + 0.5 + eps) / 10000
             levels = {"dfxp": ["caption", "caption", "span", "span", "lang"], "webvtt": ["caption", "node", "lang"],
                       "sami": ["set", "lang"]}[writer]
             return {"writer": writer, "layout": L, "vw": vw, "vh": vh, "relativize": relativize,
